@@ -1,9 +1,12 @@
 package main
 
 import (
+	"context"
 	"flag"
 	"fmt"
 	"os"
+	"path/filepath"
+	"sort"
 	"strings"
 )
 
@@ -39,6 +42,7 @@ func cmdFn(args []string) {
 	repo := fs.String("repo", "/repo", "")
 	keep := fs.Bool("keep", false, "keep SMT files")
 	timeout := fs.Int("t", 10, "timeout")
+	diag := fs.Bool("diag", false, "for unproved goals: drop quantified hypotheses and print a candidate counter-model")
 	fs.Parse(args)
 	pat := fs.Arg(0)
 	g, err := loadGlobal(*repo)
@@ -86,11 +90,75 @@ func cmdFn(args []string) {
 		for _, o := range append(append([]*Obligation{}, res.Obls...), res.Covers...) {
 			fmt.Printf("  %-8s %-60s %s %.2fs %s %s\n", o.Result, o.ID, o.Solver, o.TimeS, o.Where, o.Detail)
 		}
+		if *diag {
+			for _, o := range res.Obls {
+				if o.Result == "proved" || o.Static {
+					continue
+				}
+				diagnose(dir, res.VC, o)
+			}
+		}
 		for _, n := range res.Notes {
 			fmt.Println("  note:", n)
 		}
 		for _, n := range res.Assumed {
 			fmt.Println("  assumed:", n)
+		}
+	}
+}
+
+// diagnose: ground candidate counter-model for an unproved goal (debugging aid
+// and the "ground search" of DESIGN §2.9): quantified hypotheses are dropped,
+// so a model is only a candidate.
+func diagnose(dir string, vc *VC, o *Obligation) {
+	q := vc.query(o, false)
+	var b strings.Builder
+	for _, ln := range strings.Split(q, "\n") {
+		if strings.HasPrefix(ln, "(assert") && (strings.Contains(ln, "(forall") || strings.Contains(ln, "(exists")) {
+			continue
+		}
+		b.WriteString(ln + "\n")
+	}
+	syms := map[string]bool{}
+	var expand func(s string, depth int)
+	expand = func(s string, depth int) {
+		for _, x := range symsOf(s) {
+			if syms[x] || len(syms) > 60 {
+				continue
+			}
+			syms[x] = true
+			if i, ok := vc.declIdx[x]; ok && depth < 2 {
+				expand(vc.decls[i][strings.Index(vc.decls[i], x)+len(x):], depth+1)
+			}
+		}
+	}
+	expand(o.goal.S, 0)
+	var names []string
+	for s := range syms {
+		if i, ok := vc.declIdx[s]; ok && strings.Contains(vc.decls[i], "(forall") {
+			continue
+		}
+		names = append(names, s)
+	}
+	sort.Strings(names)
+	b.WriteString("(get-value (" + strings.Join(names, " ") + "))\n")
+	file := filepath.Join(dir, sanitize(o.ID)+".diag.smt2")
+	os.WriteFile(file, []byte(b.String()), 0o644)
+	r := runSolver(context.Background(), solvers[0], file, 10)
+	fmt.Printf("  DIAG %s: ground verdict %s\n    goal: %s\n", o.ID, r.verdict, truncate(o.goal.S, 300))
+	if i, ok := vc.declIdx[o.goal.S]; ok {
+		fmt.Printf("    def: %s\n", truncate(vc.decls[i], 700))
+	}
+	if r.verdict == "sat" {
+		out := r.out
+		if i := strings.Index(out, "(("); i >= 0 {
+			out = out[i:]
+		}
+		fmt.Printf("    model: %s\n", truncate(strings.Join(strings.Fields(out), " "), 2500))
+		for _, s := range names {
+			if i, ok := vc.declIdx[s]; ok && strings.HasPrefix(vc.decls[i], "(define-fun") {
+				fmt.Printf("      %s\n", truncate(vc.decls[i], 260))
+			}
 		}
 	}
 }
